@@ -742,7 +742,26 @@ class Fn:
         out.nz = a.nz & b.nz
         if out.nz != a.nz:
             changed = True
-        out.ordf = frozenset(f for f in (a.ordf & b.ordf) if self._fact_valid(out, f, a))
+        phi = {l for l, v in out.ver.items() if isinstance(v, tuple) and v and v[0] == "phi" and v[1] == at and a.ver.get(l, 0) != b.ver.get(l, 0)}
+        if phi and (a.ordf or b.ordf):
+            # an order fact about a local that is defined on both incoming edges holds for the merged value if it holds on each edge for that edge's value
+            def rekey(facts, st_):
+                outf = set()
+                for (x, y, strict) in facts:
+                    x2 = (x[0], x[1], x[2], out.ver[x[1]]) if x[1] in phi and st_.ver.get(x[1], 0) == x[3] and x[0] == "pl" else x
+                    y2 = (y[0], y[1], y[2], out.ver[y[1]]) if y[1] in phi and st_.ver.get(y[1], 0) == y[3] and y[0] == "pl" else y
+                    outf.add((x2, y2, strict))
+                return outf
+            ra, rb = rekey(a.ordf, a), rekey(b.ordf, b)
+            both = set()
+            for (x, y, strict) in ra:
+                if (x, y, strict) in rb or (strict is False and (x, y, True) in rb):
+                    both.add((x, y, strict))
+                elif strict and (x, y, False) in rb:
+                    both.add((x, y, False))
+            out.ordf = frozenset(f for f in both if self._fact_valid(out, f, a))
+        else:
+            out.ordf = frozenset(f for f in (a.ordf & b.ordf) if self._fact_valid(out, f, a))
         if out.ordf != a.ordf:
             changed = True
         return out, changed
@@ -788,7 +807,13 @@ class Fn:
                 a = self.E.int_range_of_ty(self.ltys[rv["x"]["pl"]["l"]])
                 b = self.E.int_range_of_ty(rv["to"])
                 keep_nz = a is not None and b is not None and b[0] <= a[0] and b[1] >= a[1]
+        len_facts = self._len_facts_for(st, rv) if st.ordf and not proj else None
         self.write(st, pl["l"], proj, val)
+        if len_facts:
+            dst = ("pl", pl["l"], (), st.ver.get(pl["l"], 0))
+            for x, strict, fld in len_facts:
+                d2 = dst if fld is None else ("pl", pl["l"], fld, st.ver.get(pl["l"], 0))
+                st.ordf = st.ordf | {(x, d2, strict)}
         if keep_nz:
             st.nz = st.nz | {pl["l"]}
         if not proj and facts:
@@ -970,9 +995,11 @@ class Fn:
 
     def _same_value(self, st, s1, s2):
         """two sources denote the same runtime value: identical, or both are the length of the same slice"""
-        if s1 == s2:
+        if s1 == s2 or (s1 is not None and s2 is not None and _ns(s1) == _ns(s2)):
             return True
         def len_src(s):
+            if s is not None and s[0] == "len":
+                return ("pl",) + tuple(s[1:])        # pseudo-source: "the length of this slice" (order facts produced by binary_search & co)
             if s is not None and not s[2] and st.ver.get(s[1], 0) == s[3]:
                 return st.lenof.get(s[1])
             return None
@@ -1032,6 +1059,42 @@ class Fn:
             if any(m == y or m == self._orig(st, y) for m in mine):
                 return True
         return False
+
+    def _len_facts_for(self, st, rv):
+        """order facts `len(S) >(=) v` that carry over to the value an rvalue defines: a plain copy / move keeps them; `v + c` weakens / `v - c` strengthens them by the
+        constant (checked operations: the result is field 0 of the (value, overflowed) pair, used only after the overflow assert). Returns [(len pseudo-source, strict, dest proj)]"""
+        out = []
+
+        def facts_on(o):
+            s0 = self.own_src(st, o)
+            if s0 is None:
+                return []
+            cands = (s0, self._orig(st, s0))
+            res = []
+            for (x, y, strict) in st.ordf:
+                if x[0] != "len" or st.ver.get(x[1], 0) != x[3] or st.ver.get(y[1], 0) != y[3]:
+                    continue
+                if any(_ns(c) == _ns(y) for c in cands):
+                    res.append((x, strict))
+            return res
+        k = rv["k"]
+        if k == "use" and rv["x"]["k"] in ("copy", "move"):
+            for x, strict in facts_on(rv["x"]):
+                out.append((x, strict, None))
+        elif k == "bin" and rv["op"] in ("AddWithOverflow", "SubWithOverflow", "Add", "Sub") and rv["r"]["k"] == "const" and isinstance(rv["r"].get("v"), int) and rv["l"]["k"] in ("copy", "move"):
+            c = rv["r"]["v"]
+            wo = rv["op"].endswith("WithOverflow")
+            if not wo:
+                return out      # unchecked arithmetic may wrap: no transfer
+            fld = (("f", 0, None),)
+            for x, strict in facts_on(rv["l"]):
+                if rv["op"].startswith("Sub") and c >= 0:
+                    out.append((x, strict or c >= 1, fld))
+                elif rv["op"].startswith("Add") and c == 0:
+                    out.append((x, strict, fld))
+                elif rv["op"].startswith("Add") and c == 1 and strict:
+                    out.append((x, False, fld))
+        return out
 
     def own_src(self, st, o):
         if o["k"] in ("copy", "move"):
@@ -1150,10 +1213,10 @@ class Fn:
         if lo > hi:
             return False
         if (lo, hi) != (ci[1], ci[2]):
-            saved = (dict(st.copy), dict(st.cmp), dict(st.dsc), dict(st.ver), dict(st.lenof), st.nz)
+            saved = (dict(st.copy), dict(st.cmp), dict(st.dsc), dict(st.ver), dict(st.lenof), st.nz, st.ordf)
             self.write(st, l, proj, ("i", lo, hi))
             # refinement is not a redefinition: restore facts and versions
-            st.copy, st.cmp, st.dsc, st.ver, st.lenof, st.nz = saved
+            st.copy, st.cmp, st.dsc, st.ver, st.lenof, st.nz, st.ordf = saved
             if not proj and l in st.lenof:
                 self.refine_len(st, st.lenof[l], lo, hi)
         # every local that is a plain copy of the same origin holds the same runtime value
@@ -1184,9 +1247,9 @@ class Fn:
         if nlo > nhi:
             return
         if (nlo, nhi) != (ex[1], ex[2]):
-            saved = (dict(st.copy), dict(st.cmp), dict(st.dsc), dict(st.ver), dict(st.lenof), st.nz)
+            saved = (dict(st.copy), dict(st.cmp), dict(st.dsc), dict(st.ver), dict(st.lenof), st.nz, st.ordf)
             self.write(st, l, proj, ("l", nlo, nhi, ex[3]))
-            st.copy, st.cmp, st.dsc, st.ver, st.lenof, st.nz = saved
+            st.copy, st.cmp, st.dsc, st.ver, st.lenof, st.nz, st.ordf = saved
 
     def apply_cmp(self, st, fact, truth):
         """refine by comparison fact; returns False if the branch is infeasible"""
@@ -1363,9 +1426,9 @@ class Fn:
         if not keep:
             return False
         if len(keep) != len(ex[2]) or ex != cur:
-            saved = (dict(st.copy), dict(st.cmp), dict(st.dsc), dict(st.ver), dict(st.lenof), st.nz)
+            saved = (dict(st.copy), dict(st.cmp), dict(st.dsc), dict(st.ver), dict(st.lenof), st.nz, st.ordf)
             self.write(st, l, proj, ("e", ex[1], tuple(keep)))
-            st.copy, st.cmp, st.dsc, st.ver, st.lenof, st.nz = saved
+            st.copy, st.cmp, st.dsc, st.ver, st.lenof, st.nz, st.ordf = saved
         return True
 
     def assert_(self, bi, st, t):
@@ -1422,10 +1485,17 @@ class Fn:
         return ", ".join(parts)
 
 
+def _ns(s):
+    """a source with the type ids of its field projections dropped (facts produced by models do not know them)"""
+    if not isinstance(s, tuple) or len(s) != 4:
+        return s
+    return (s[0], s[1], tuple((e[0], e[1]) if isinstance(e, tuple) and e and e[0] == "f" else e for e in s[2]), s[3])
+
+
 def _fact_locals(fact):
     out = []
     if isinstance(fact, tuple):
-        if len(fact) == 4 and fact[0] == "pl":
+        if len(fact) == 4 and fact[0] in ("pl", "len"):
             out.append((fact[1], fact[3]))
         else:
             for x in fact:
